@@ -33,7 +33,7 @@ def goTypeOf (objs : List Obj) (t : Str) : Option GoType :=
   else if t = "int".toList then some (.prim "int32")
   else if t = "string".toList then some (.prim "string")
   else if t = "bytes".toList then some (.prim "bytes")
-  else if t = "bitflags".toList then none
+  else if t = kwBitflags then none
   else match objs.filter (·.iface = t) with
     | [] => none
     | o :: os =>
@@ -62,7 +62,7 @@ def fieldOf (objs : List Obj) (p : Param) : Option GoField :=
 def fieldsOf (objs : List Obj) : List Param → Option (List GoField)
   | [] => some []
   | p :: ps =>
-    if p.type = "bitflags".toList then fieldsOf objs ps else
+    if p.type = kwBitflags then fieldsOf objs ps else
     match fieldOf objs p, fieldsOf objs ps with
     | some f, some fs => some (f :: fs)
     | _, _ => none
@@ -71,7 +71,7 @@ def fieldsOf (objs : List Obj) : List Param → Option (List GoField)
 def flagsWordIndex (ps : List Param) : Option Nat :=
   let rec go (i : Nat) (found : Option Nat) : List Param → Option Nat
     | [] => found
-    | p :: ps => go (i + 1) (if p.name = "flags".toList ∧ p.type = "bitflags".toList then some i else found) ps
+    | p :: ps => go (i + 1) (if p.name = kwFlagsWord ∧ p.type = kwBitflags then some i else found) ps
   go 0 none ps
 
 /-- `FlagIndex()`: `some none` = no such method (no optional field); `none` = the generator panics -/
